@@ -69,6 +69,7 @@ def handle (line : String) : String :=
   | "lex" :: rest => LexDrv.handle rest
   | "pratt" :: rest => PrattDrv.handle rest
   | "prattw" :: rest => PrattDrv.handleW rest
+  | "layoutw" :: rest => PrattDrv.handleLayout rest
   | ["fmtk"] => LayoutDrv.handleK ""
   | ["fmtk", w] => LayoutDrv.handleK w
   | ["fmtm"] => LayoutDrv.handleM ""
